@@ -6,6 +6,7 @@ object (so classes, handlers, decorators and handler-tool kwargs are shared), an
 
     ['req', app, path, method]          one request through the WSGI entry point of that application
     ['merge', app, sections, form]      app.merge(dict | INI file object | INI file name)
+    ['merge_flat', app, conf]           app.merge of a dict without section headers: refused (ValueError), no effect
     ['remount', app]                    a new Application on the same root from the app's original config
                                         (dict values / INI text evaluated again *now*)
     ['gupdate', conf, form]             cherrypy.config.update(dict | {'global': dict} | INI [global] | file name)
@@ -42,7 +43,7 @@ PLAIN_KEYS = ['k1', 'k2', 'ns.k3', 'Ns.K4']
 TOOLS = ['p1', 'p2', 'h1']
 HANDLER_TOOLS = ['h1']
 TOOL_ARGS = ['on', 'x', 'y', 'priority', 'z.w']
-GEN_KEYS = PLAIN_KEYS + ['tools.%s.%s' % (t, a) for t in TOOLS for a in TOOL_ARGS]
+GEN_KEYS = PLAIN_KEYS + ['tools.%s.%s' % (t, a) for t in TOOLS for a in TOOL_ARGS] + ['tools.h1.serve']
 ON_TEXTS = ['True', 'True', 'True', 'False', '0', '1', "''", "'yes'", 'None']
 COMPOUND = ["['v']", "{'d': 1}", "['v', ['n']]", "{'d': ['n']}", '[1, 2]']
 DOTTED = [SETTINGS_MOD + '.A', SETTINGS_MOD + '.B', '[%s.A]' % SETTINGS_MOD, 'dict(a=%s.B)' % SETTINGS_MOD,
@@ -72,6 +73,7 @@ def ensure_tools():
         def mk(name):
             def probe_tool(**kw):
                 TOOL_JOURNAL.append((name, canon_conf(kw), kw))
+                # (`page` marks the call a tools.<t>.handler(**kw) page handler makes; `serve`: answer the request)
                 if name in HANDLER_TOOLS and kw.get('serve'):
                     cherrypy.serving.response.body = [('th ' + name).encode()]
                     return True
@@ -121,6 +123,8 @@ def gen_conf_h(rng, prov, p=0.3, scalars=False):
             c['tools.%s.priority' % t] = rng.choice(['10', '50', '90'])
         if rng.random() < p * 0.1:
             c['tools.%s.z.w' % t] = gen_text(rng, prov)
+    if rng.random() < p * 0.06:
+        c['tools.h1.serve'] = rng.choice(['1', '0', 'True'])       # the tool answers the request itself when it is on
     return c
 
 
@@ -199,7 +203,9 @@ def gen_hist_case(rng, i):
             name = rng.choice(['th', 'svc'])
             if name not in used:
                 prov = 'K:%d.%s' % (n, name)
-                kw = {'serve': '1'}
+                kw = {'page': '1'}
+                if rng.random() < 0.85:
+                    kw['serve'] = '1'
                 for a in ('x', 'y'):
                     if rng.random() < 0.6:
                         kw[a] = gen_text(rng, prov)
@@ -252,6 +258,9 @@ def gen_hist_case(rng, i):
             secs = {n: c for n, c in secs.items() if c}
             if secs:
                 st = ['merge', rng.randrange(len(apps)), secs, rng.choice(forms)]
+        elif r < 0.695:
+            flat = {k: t for k, t in gen_conf_h(rng, 'F', p=0.4).items() if not t.startswith(('{', 'dict('))}
+            st = ['merge_flat', rng.randrange(len(apps)), flat or {'k1': "'F'"}]
         elif r < 0.75:
             st = ['gupdate', gen_conf_h(rng, 'G', p=0.25), rng.choice(['dict', 'gdict', 'ini', 'file'])]
             if not st[1]:
@@ -280,7 +289,20 @@ def gen_hist_case(rng, i):
             for _ in range(rng.choice([1, 2])):
                 q = a_req()
                 steps.append(q)
+    if kind == 'M':
+        # (a tool answering the request itself hides which verb method the method dispatcher had picked)
+        _strip_key(hist, 'tools.h1.serve')
     return {'hist': hist}
+
+
+def _strip_key(x, key):
+    if isinstance(x, dict):
+        x.pop(key, None)
+        for v in x.values():
+            _strip_key(v, key)
+    elif isinstance(x, list):
+        for v in x:
+            _strip_key(v, key)
 
 
 # ----------------------------------------------------------------------------------------------
@@ -700,7 +722,7 @@ class World:
             o['config'] = None
             o['toolmap'] = {}
             o['raised'] = 'observing request.config: ' + type(e).__name__
-        o['tools_ran'] = sorted(([n, 'page' if 'serve' in kw else 'hook', sorted(kw.items(), key=repr)]
+        o['tools_ran'] = sorted(([n, 'page' if 'page' in kw else 'hook', sorted(kw.items(), key=repr)]
                                  for n, kw, live in TOOL_JOURNAL), key=repr)
         return o
 
@@ -748,6 +770,13 @@ class World:
         try:
             if k == 'merge':
                 self.apps[st[1]].merge(self.supply(st[2], st[3]))
+            elif k == 'merge_flat':
+                # an application config needs section headers: a flat dict is refused, nothing is applied
+                try:
+                    self.apps[st[1]].merge(self.ev_conf(st[2]))
+                    bad.append(('app.merge of the flat dict %s (no section headers) was accepted' % (st[2],), 'flat_merge_accepted'))
+                except ValueError:
+                    pass
             elif k == 'remount':
                 self.mount(st[1])
                 bad += self.load_errors
@@ -939,7 +968,13 @@ def oracle_request(ref, a, world, o):
         bad.append(('tools set up with their arguments %s differ from what the effective config turns on %s (config %s)'
                     % (got_hooks, want_hooks, cfg), 'tool_on_off'))
     # a handler-tool page handler gets its own kwargs overlaid with the effective tools.<t>.* entries
-    if chosen_opts is not None:
+    hook_serves = bool(cfg.get('tools.h1.on', False)) and bool(cfg.get('tools.h1.serve', False))
+    if chosen_opts is not None and hook_serves:
+        # the tool, turned on by config, answered the request before the handler: no page handler runs
+        if got_pages:
+            bad.append(('the page handler ran (%s) although the tool turned on by the config had answered the request' % got_pages,
+                        'handler_tool_args'))
+    elif chosen_opts is not None:
         wants = []
         for ch in chosen_opts:
             th = getattr(ch, '_c08_th', None)
@@ -1133,7 +1168,7 @@ def shrink_hist(case, sig):
         n = len(h['steps'])
         for j in range(n - 2, -1, -1):
             yield {'hist': dict(h, steps=h['steps'][:j] + h['steps'][j + 1:])}
-        if len(h['apps']) > 1 and not any(s[0] in ('req', 'merge', 'remount') and s[1] == 1 for s in h['steps']) \
+        if len(h['apps']) > 1 and not any(s[0] in ('req', 'merge', 'merge_flat', 'remount') and s[1] == 1 for s in h['steps']) \
                 and not any(s[0] == 'mutate' and s[1][0] == 'sec' and s[1][1] == 1 for s in h['steps']):
             yield {'hist': dict(h, apps=h['apps'][:1])}
         for a, ac in enumerate(h['apps']):
@@ -1207,8 +1242,24 @@ def model_obs(line):
             'tools_ran': sorted(ran, key=repr)}
 
 
+def check_tool_decorator_args(ctx):
+    """`@tools.x(...)` takes keyword arguments only."""
+    cherrypy = T.cp()
+    ensure_tools()
+    case = {'hist': {'tool_decorator': 'positional'}}
+    try:
+        cherrypy.tools.p1('positional')
+        ctx.oracle_fail(case, 'cherrypy.tools.p1("positional") was accepted: tool arguments are keyword arguments', 'tool_decorator_positional')
+    except TypeError:
+        pass
+    except Exception as e:
+        ctx.oracle_fail(case, 'cherrypy.tools.p1("positional") raised %s' % type(e).__name__, 'tool_decorator_positional')
+
+
 def check_hist_cases(ctx, cases, compare_model=True):
     pending = []
+    if len(cases) > 1:
+        check_tool_decorator_args(ctx)
     failing = 0
     for case in cases:
         if failing >= 25:
@@ -1276,7 +1327,8 @@ def check_hist_cases(ctx, cases, compare_model=True):
             diffs.append('tools_ran')
         pages_m = [x for x in mo['tools_ran'] if x[1] == 'page']
         pages_o = [x for x in o['tools_ran'] if x[1] == 'page']
-        if pages_m != pages_o and (pages_o or 200 <= o['status'] < 300):
+        hook_serves = bool(o['config'].get('tools.h1.on', False)) and bool(o['config'].get('tools.h1.serve', False))
+        if pages_m != pages_o and not hook_serves:
             diffs.append('handler_tool_args')
         if diffs:
             ctx.disagree(single, {k: o[k] for k in ('config', 'toolmap', 'tools_ran', 'status', 'path_info')}, mo,
